@@ -516,8 +516,10 @@ func c04R3(c *Ctx, p *Prog, rule string) {
 						c.Fail(rule, key, t.Val.Pos(), "castlingRand[%d] is gated by a bit of a value other than the delta applied to Castles", i)
 					case !bc || b != i:
 						c.Fail(rule, key, t.Val.Pos(), "castlingRand[%d] is gated by bit %d of the castling delta: index and bit must agree", i, b)
+					case t.Xor == nil || (t.Enable != nil && !blockDomOrSame(t.Xor.Block(), app.Block())) || (t.Enable == nil && len(controllingConds(t.Xor.Block())) != 1):
+						c.Fail(rule, key, t.Val.Pos(), "castlingRand[%d] is toggled only on some paths (guarded by a condition other than its own delta bit): a move that changes right %d on the other paths leaves a stale key in the hash", i, i)
 					default:
-						c.Ok(rule, key, t.Val.Pos(), "castlingRand[%d] toggled under bit %d of the delta applied to Castles", i, b)
+						c.Ok(rule, key, t.Val.Pos(), "castlingRand[%d] toggled under bit %d of the delta applied to Castles, on every path", i, b)
 						seen[i] = true
 					}
 				}
@@ -793,5 +795,14 @@ func init() {
 		Mutant{Name: "C04.R5-reseed-function", Prop: "C04", File: "board/zobrist.go",
 			Old: "// CalculateHash calculates", New: "func Reseed(v uint64) { stmRand = Hash(v) }\n\n// CalculateHash calculates",
 			Expect: "C04.R5/immutable:board.stmRand"},
+	)
+}
+
+func init() {
+	addMutants(
+		Mutant{Name: "C04.R3-castling-keys-only-on-king-or-rook-moves", Prop: "C04", File: "board/board.go",
+			Old: "\thash ^= castlingRand[0] & hashEnable[(castlingChange>>0)&1]\n\thash ^= castlingRand[1] & hashEnable[(castlingChange>>1)&1]\n\thash ^= castlingRand[2] & hashEnable[(castlingChange>>2)&1]\n\thash ^= castlingRand[3] & hashEnable[(castlingChange>>3)&1]\n",
+			New: "\tif piece == King || piece == Rook {\n\t\thash ^= castlingRand[0] & hashEnable[(castlingChange>>0)&1]\n\t\thash ^= castlingRand[1] & hashEnable[(castlingChange>>1)&1]\n\t\thash ^= castlingRand[2] & hashEnable[(castlingChange>>2)&1]\n\t\thash ^= castlingRand[3] & hashEnable[(castlingChange>>3)&1]\n\t}\n",
+			Expect: "C04.R3/board.(*Board).MakeMove#castlingRand"},
 	)
 }
